@@ -166,6 +166,10 @@ def generate(tier, seed):
     for n in range(2, 9):
         yield from aset_cases(n, ['aff', seed, 1000.0, 1e-3], lo, hi)
         yield from aset_cases(n, ['aff', seed, 0.0, 1e-9], lo, hi)
+    # long unsorted vectors (library sorting / partitioning routines switch algorithm with the length)
+    yield {'__level__': 'active_set/long_vectors'}
+    for n in (257, 600) if tier == 'quick' else (257, 300, 600, 1000, 2000):
+        yield from aset_cases(n, ['gen', seed], lo, hi)
     yield {'__level__': 'aggregation_bounds'}
     nmax, ntie = (6, 3) if tier == 'quick' else (8, 4)
     # scale 200 spreads the data over several hundred: |alpha|*(max-min) far beyond the exp() range (SoftMinMax is
